@@ -3,6 +3,7 @@ import re
 from sa.facts import AnalysisBroken, strip_targs
 from sa import analysis as an
 from sa import rules as K
+from rules import common as C
 
 UNITS = ['witness/lockfree.cpp']
 UNITS_THOROUGH = ['thread/workerpool.cpp', 'common/executor/executor.cpp', 'fs/exportfs.cpp', 'common/alog.cpp']
@@ -263,6 +264,7 @@ def turns(R, prog):
 
 
 def run(R, prog, tier):
+    R.guard(C.flexqueue_geometry, R, prog, P)
     k1(R, prog)
     R.guard(turns, R, prog)
     R.guard(publication, R, prog)
